@@ -114,7 +114,7 @@ def angle_law_of_cosines(ctx, n):
          note="dimensions 2..5, t in [-6,6], regular n-gons n=3..12 by angle and by radius, radius/angle formulas mutually inverse, isometry_to")
 def sampling(tier, rng, rep):
     N = 300 if tier == 'thorough' else 60
-    rep.rule = "random interior points / tangent vectors in dimension 2..5, |t|<=6; regular n-gons 3..12 with random admissible angle; non-trivial = n>=3 dims or obtuse angle"
+    rep.rule = "random interior points / tangent vectors in dimension 2..5, |t|<=6; regular n-gons 3..12 with random admissible angle in dimension 2..4; non-trivial = n>=3 dims or obtuse angle"
     rep.bound = f"{N} rounds"
     for t in range(N):
         n = int(rng.integers(2, 6))
@@ -130,27 +130,27 @@ def sampling(tier, rng, rep):
             d = p.distance(q)
             tv = p.unit_tangent_towards(q)
             arr = tv.point_along(d).coords("klein")
-            if np.max(np.abs(arr - kq)) > 1e-6:
+            if not np.all(np.abs(arr - kq) <= 1e-6):
                 rep.fail("tangent_towards_arrives", f"{arr} vs {kq}", inp)
             tt = rng.uniform(-6, 6)
             y = tv.point_along(tt)
-            if abs(p.distance(y) - abs(tt)) > 1e-5 * (1 + abs(tt)):
+            if not (abs(p.distance(y) - abs(tt)) <= 1e-5 * (1 + abs(tt))):
                 rep.fail("point_along_distance", f"t={tt} d={p.distance(y)}", {**inp, "t": tt})
             tv2 = q.unit_tangent_towards(r)
             M = tv.isometry_to(tv2)
             img = M @ p
-            if np.max(np.abs(img.coords("klein") - kq)) > 1e-6:
+            if not np.all(np.abs(img.coords("klein") - kq) <= 1e-6):
                 rep.fail("isometry_to_basepoint", "first basepoint not carried to the second", inp)
             far = M @ tv.point_along(1.0)
-            if np.max(np.abs(far.coords("klein") - tv2.point_along(1.0).coords("klein"))) > 1e-6:
+            if not np.all(np.abs(far.coords("klein") - tv2.point_along(1.0).coords("klein")) <= 1e-6):
                 rep.fail("isometry_to_direction", "direction not carried", inp)
             # law of cosines at p
             A = tv.angle(p.unit_tangent_towards(r))
             a, b, c = q.distance(r), p.distance(q), p.distance(r)
-            if abs(np.cosh(a) - (np.cosh(b) * np.cosh(c) - np.sinh(b) * np.sinh(c) * np.cos(A))) > 1e-6 * np.cosh(a):
+            if not (abs(np.cosh(a) - (np.cosh(b) * np.cosh(c) - np.sinh(b) * np.sinh(c) * np.cos(A))) <= 1e-6 * np.cosh(a)):
                 rep.fail("law_of_cosines", f"angle {A}", inp)
             M0 = p.origin_to()
-            if np.max(np.abs((M0 @ h.Point.get_origin(n)).coords("klein") - kp)) > 1e-7:
+            if not np.all(np.abs((M0 @ h.Point.get_origin(n)).coords("klein") - kp) <= 1e-7):
                 rep.fail("origin_to_hits_point", "", inp)
             return A
         A = rep.attempt("constructions_run", inp, body)
@@ -158,29 +158,30 @@ def sampling(tier, rng, rep):
         # regular polygons
         m = int(rng.integers(3, 13))
         a = rng.uniform(0.02, 0.98) * (m - 2) * np.pi / m
-        inp2 = {"n_gon": m, "angle": a}
+        dim = int(rng.integers(2, 5))
+        inp2 = {"n_gon": m, "angle": a, "dimension": dim}
 
         def poly():
             rad = h.regular_polygon_radius(m, a)
             back = h.polygon_interior_angle(m, rad)
-            if abs(back - a) > 1e-7:
+            if not (abs(back - a) <= 1e-7):
                 rep.fail("radius_angle_inverse", f"{back} vs {a}", inp2)
             for kw in ({"angle": a}, {"radius": rad}):
-                Pg = h.Polygon.regular_polygon(m, **kw)
+                Pg = h.Polygon.regular_polygon(m, **kw) if dim == 2 and t % 2 else h.Polygon.regular_polygon(m, dimension=dim, **kw)
                 V = Pg.get_vertices()
                 if V.shape != (m,):
                     rep.fail("polygon_vertex_count", f"{V.shape}", inp2)
                     continue
-                o = h.Point.get_origin(2)
+                o = h.Point.get_origin(dim)
                 dist = np.array([o.distance(V[i]) for i in range(m)])
-                if np.max(np.abs(dist - rad)) > 1e-6 * (1 + rad):
+                if not np.all(np.abs(dist - rad) <= 1e-6 * (1 + rad)):
                     rep.fail("polygon_equal_radius", f"{dist}", inp2)
                 sides = np.array([V[i].distance(V[(i + 1) % m]) for i in range(m)])
-                if np.max(np.abs(sides - sides[0])) > 1e-6 * (1 + sides[0]):
+                if not np.all(np.abs(sides - sides[0]) <= 1e-6 * (1 + sides[0])):
                     rep.fail("polygon_equal_sides", f"{sides}", inp2)
                 for i in range(m):
                     ang = V[i].unit_tangent_towards(V[(i + 1) % m]).angle(V[i].unit_tangent_towards(V[(i - 1) % m]))
-                    if abs(ang - a) > 1e-6:
+                    if not (abs(ang - a) <= 1e-6):
                         rep.fail("polygon_interior_angle", f"vertex {i}: {ang} vs {a}", inp2)
                         break
         rep.attempt("regular_polygon_runs", inp2, poly)
